@@ -44,3 +44,8 @@ def score_cores_are_nested(CIJ, s1, s2):
     B, sb = score_wu(CIJ, s2)
     A, sa = score_wu(CIJ, s1)
     return A, B
+
+
+def path_from_floyd_inv(adjacency, s, t):
+    SPL, hops, Pmat = distance_wei_floyd(adjacency, 'inv')
+    return retrieve_shortest_path(s, t, hops, Pmat)
